@@ -49,12 +49,12 @@ def _check_main(run, P):
              "loop ranges over the union of both phase maps, each side is looked up "
              "in its own map, and a one-sided phase is returned as it is", minimum=5)
     run.rule("C16.order", "phases of the result are inserted in sorted order", minimum=1)
-    _pred(run, P)
-    _fields(run, P)
-    _clash(run, P)
-    _ids(run, P)
-    _agree(run, P)
-    _phases(run, P)
+    run.do(_pred, run, P)
+    run.do(_fields, run, P)
+    run.do(_clash, run, P)
+    run.do(_ids, run, P)
+    run.do(_agree, run, P)
+    run.do(_phases, run, P)
     # the read sets clash detection works on, and the rebuilding of mapped fields
     # (shared with C08.mapper / C08.ident)
     from . import c08 as _c08
@@ -62,8 +62,8 @@ def _check_main(run, P):
         run.rule_docs.setdefault(r_, "")
         run.minimum.setdefault(r_, 0)
     n1_ = len(run.obs)
-    _c08._mapper_config(run, P)
-    _c08._ident(run, P, sm.statement_classes(P))
+    run.do(_c08._mapper_config, run, P)
+    run.do(_c08._ident, run, P, sm.statement_classes(P))
     for o_ in run.obs[n1_:]:
         if o_.rule in ("C08.mapper", "C08.ident"):
             o_.rule = "C16.fields"
@@ -76,7 +76,7 @@ def _check_main(run, P):
         run.rule_docs.setdefault(r_, "")
         run.minimum.setdefault(r_, 0)
     n0_ = len(run.obs)
-    c13._storage(run, P)
+    run.do(c13._storage, run, P)
     for o_ in run.obs[n0_:]:
         if o_.rule in ("C13.storage", "C01.persist"):
             o_.rule = "C16.pred"
